@@ -17,10 +17,47 @@ def run_C02(ctx):
     drive_and_validate(ctx, [{"driver": "C02", "n": sz(ctx, 3200, 120000), "probes": 48}])
 
 
+def run_C06(ctx):
+    drive_and_validate(ctx, [{"driver": "C06", "n": sz(ctx, 3200, 160000), "probes": 40}])
+
+
+def run_C11(ctx):
+    drive_and_validate(ctx, [{"driver": "C11", "n": sz(ctx, 3200, 160000), "probes": 40}])
+
+
+def run_C14(ctx):
+    run_model(ctx, "MC_BigInt", workers=4)
+    run_model(ctx, "MC_GeometryB", workers=8)
+    drive_and_validate(ctx, [{"driver": "C14", "n": sz(ctx, 4000, 200000)}])
+
+
+def run_C15(ctx):
+    drive_and_validate(ctx, [{"driver": "C15", "n": sz(ctx, 1600, 60000)}])
+
+
+def run_C16(ctx):
+    drive_and_validate(ctx, [{"driver": "C16", "n": sz(ctx, 1600, 60000)}])
+
+
 PROPS = {
     "C01": {"run": run_C01,
             "rule": "seeded generators (9 families) x 4 clip types x 4 fill rules x 4 entry points; an event is non-trivial "
                     "when its probes outside the band include both an expected-inside and an expected-outside point"},
+    "C06": {"run": run_C06,
+            "rule": "closed path sets of 9 families x rectangles biased through path vertices and along edges x 3 entry "
+                    "points; non-trivial: probes off the bands contain a filled point inside and one outside the rectangle"},
+    "C11": {"run": run_C11,
+            "rule": "open polylines on the 8-grid (2..6 points, horizontal/vertical runs) x rectangles (free or on the grid) x 3 "
+                    "entry points; probes are eighth points of the input segments; non-trivial: probes inside and outside"},
+    "C14": {"run": run_C14,
+            "rule": "Area64/AreaPaths64/IsPositive64/PointInPolygon/GetBounds64/isCollinear on operands with differences "
+                    "0,+-1,+-2 and magnitudes around 2^26..2^29; non-trivial: >= 3 vertices / a real triple"},
+    "C15": {"run": run_C15,
+            "rule": "paths with collinear runs spanning index 0, spikes, duplicates, unit steps, 2^28 magnitudes; non-trivial: "
+                    "some but not all vertices removed"},
+    "C16": {"run": run_C16,
+            "rule": "paths of 0..9 points at 5 magnitudes x 8 epsilons x closed/open x 4 entry points, each re-run translated "
+                    "and scaled by a power of two; non-trivial: something removed and > 2 vertices left"},
     "C02": {"run": run_C02,
             "rule": "as C01 with preserve-collinear / reverse-solution toggled; non-trivial as C01"},
 }
